@@ -3,6 +3,7 @@ package props
 import (
 	"context"
 	"fmt"
+	"os"
 	"testing"
 
 	"pgregory.net/rapid"
@@ -35,6 +36,14 @@ type C07Scenario struct {
 	// neighbour, subscribed after the handlers under test, cancels during that publish. Deliveries of
 	// such an event are indeterminate; every other event must still arrive exactly once, in order.
 	CancelEvery int `json:"cancel_every,omitempty"`
+	// SlowFirst: the first invocation of every handler under test takes many more scheduler steps, so that
+	// publishers run ahead and a queue of deliveries (live and cancelled ones) builds up behind it.
+	SlowFirst bool `json:"slow_first,omitempty"`
+	// ExtCancel: the contexts of the "cancelled" events are cancelled by a task of their own, started just
+	// before the publish, instead of by the neighbour handler: the cancellation can land at any decision
+	// point - before dispatch, between the publisher's check and the start of an async delivery, while a
+	// delivery waits for its turn - and not only during a handler.
+	ExtCancel bool `json:"ext_cancel,omitempty"`
 }
 
 func genC07(rt *rapid.T) core.Scenario {
@@ -70,9 +79,11 @@ func genC07(rt *rapid.T) core.Scenario {
 		sc.OnceBefore = rapid.IntRange(0, 2).Draw(rt, "onceBefore")
 		sc.SelfUnsub = rapid.Bool().Draw(rt, "selfUnsub")
 	}
-	if rapid.IntRange(0, 3).Draw(rt, "cancels") == 3 {
+	if rapid.IntRange(0, 2).Draw(rt, "cancels") == 2 {
 		sc.CancelEvery = rapid.IntRange(1, 3).Draw(rt, "cancelEvery")
 	}
+	sc.SlowFirst = rapid.IntRange(0, 2).Draw(rt, "slowFirst") == 2
+	sc.ExtCancel = sc.CancelEvery > 0 && rapid.Bool().Draw(rt, "extCancel")
 	sc.Tape = core.DrawTape(rt, 600)
 	return sc
 }
@@ -117,7 +128,11 @@ func (sc *C07Scenario) Execute(t *testing.T) *core.Outcome {
 				}
 			}
 			seen[ri] = append(seen[ri], id)
-			for i := 0; i < sc.Yields; i++ {
+			ny := sc.Yields
+			if sc.SlowFirst && calls[ri] == 0 {
+				ny = 40 * sc.Yields
+			}
+			for i := 0; i < ny; i++ {
 				simrt.Yield(siteHandler)
 			}
 			inside[ri]--
@@ -149,7 +164,7 @@ func (sc *C07Scenario) Execute(t *testing.T) *core.Outcome {
 				return
 			}
 		}
-		if sc.CancelEvery > 0 {
+		if sc.CancelEvery > 0 && !sc.ExtCancel {
 			if err := w.SubscribeUID(sc.Type, numSites-5, 300, SubOpts{}); err != nil {
 				out.HarnessErr = err.Error()
 				return
@@ -165,6 +180,15 @@ func (sc *C07Scenario) Execute(t *testing.T) *core.Outcome {
 					if sc.cancelled(id) {
 						c, cancel := context.WithCancel(ctx)
 						ctx, cancelFn[id] = c, cancel
+						if sc.ExtCancel {
+							delay := (id * 13) % 41 // 0..40 steps: before dispatch, during it, or long after the delivery was queued
+							simrt.GoNamed(fmt.Sprintf("cancel%d", id), func() {
+								for i := 0; i < delay; i++ {
+									simrt.Yield(siteHandler)
+								}
+								cancel()
+							})
+						}
 					}
 					if sc.ViaAny {
 						ops.PubAny(w, ctx, id)
@@ -188,6 +212,9 @@ func (sc *C07Scenario) Execute(t *testing.T) *core.Outcome {
 	}
 	out.LogHash = w.Rec.Hash()
 	out.Nontrivial = rep.Choices > 0
+	if os.Getenv("VERIF_DEBUG") != "" {
+		fmt.Printf("C07 debug: seen=%v steps=%d deadlock=%v\n", seen, rep.Steps, rep.Deadlock)
+	}
 	_ = contended
 	if rep.BudgetExceeded {
 		out.HarnessErr = "step budget exceeded"
